@@ -1040,6 +1040,13 @@ Section GrowModel.
         * right. intuition.
   Qed.
 
+  Lemma reserve_log_ge : forall fuel nl n r, reserve_log fuel nl n = Some r -> nl <= r.
+  Proof.
+    induction fuel; intros nl n r H; simpl in H; destruct (n <=? calcCapacity (2 ^ nl)); try discriminate;
+      try (inversion H; subst; lia).
+    apply IHfuel in H. lia.
+  Qed.
+
   Lemma hreserve_spec : forall s n refuse sch s' o, Inv s -> hreserve s n refuse sch = Some (s', o) ->
     Inv s' /\ Permutation (abs s') (abs s) /\ (o = RUnit \/ s' = s /\ (o = RBadAlloc \/ o = RCheck)).
   Proof.
@@ -1050,9 +1057,7 @@ Section GrowModel.
     destruct (relocate (newTable nl :: gens s) sch) as [gs|] eqn:ER; [|discriminate].
     inversion H; subst; clear H. destruct HI as (HF & HD & HC & HN).
     assert (NL : 0 <= nl).
-    { clear - EL HF shift_nonneg logStart_nonneg. pose proof (newLog_nonneg _ HF). revert EL H. generalize (newLog (gens s)). generalize 64%nat.
-      induction n0; intros z EL Hz; simpl in EL; destruct (n <=? calcCapacity (2 ^ z)); try discriminate; try (inversion EL; subst; lia).
-      apply IHn0 in EL; lia. }
+    { pose proof (newLog_nonneg _ HF). pose proof (reserve_log_ge _ _ _ _ EL). lia. }
     assert (HF' : Forall tinv (newTable nl :: gens s)) by (constructor; auto; apply tinv_newTable; auto).
     destruct (relocate_spec _ _ _ HF' ER) as (F2 & P2 & N2 & _ & LL).
     assert (PA : Permutation (allkeys gs) (abs s)).
@@ -1061,7 +1066,7 @@ Section GrowModel.
     unfold Inv, abs; simpl. repeat split; auto.
     - eapply Permutation_NoDup; [apply Permutation_sym; apply PA|]. auto.
     - apply Permutation_length in PA. rewrite PA. auto.
-    - intros HT. destruct (N2 HT) as [A|A]; simpl in *; try lia. specialize (HN HT). lia.
+    - intros HT. specialize (HN HT). clear EL. destruct (N2 HT) as [A|A]; simpl in A, LL; lia.
   Qed.
 
   (* observable results against the abstract set A = abs s (a list without duplicates) *)
@@ -1119,7 +1124,7 @@ Section GrowModel.
       + inversion H; subst. destruct (hfind_sound _ _ _ _ _ EF) as (_ & _ & _ & Hin). simpl; auto.
       + pose proof (hfind_none_notin _ _ HI EF) as NI.
         destruct (hadd_spec _ _ _ _ _ _ _ HI NI H) as [(A1 & A2 & A3)|(A1 & A2)].
-        * subst r. simpl. repeat split; auto.
+        * subst r. simpl. split; [exact A2|]. split; [|exact A3]. split; [exact NI|]. split; [reflexivity|].
           unfold hadd in H. destruct afail; auto. exfalso.
           unfold add_head in H.
           destruct (count s <? capacity s); [destruct (gens s); [discriminate|]|
